@@ -156,10 +156,12 @@ type lookupResult struct {
 	count    uint64
 	postings []obs.Posting
 	ended    bool
+	// the optimiser's view of the iterator before it is consumed (segment.OptimizablePostingsIterator)
+	opt string
 }
 
 func (r lookupResult) String() string {
-	return fmt.Sprintf("err=%q count=%d ended=%v postings=%v", r.err, r.count, r.ended, r.postings)
+	return fmt.Sprintf("err=%q count=%d ended=%v optimizable=%s postings=%v", r.err, r.count, r.ended, r.opt, r.postings)
 }
 
 type c13Machine struct {
@@ -241,6 +243,14 @@ func walkList(e *c13Env, pl segment.PostingsList, o lookupOp, prePI segment.Post
 		}
 		// Count() of the shared empty list is 0; the shared empty iterator's Count is not called
 		res.count = pl.Count()
+		if o, ok := pi.(segment.OptimizablePostingsIterator); ok && pl.Count() > 0 {
+			d1, is1 := o.DocNum1Hit()
+			abm := "nil"
+			if bm := o.ActualBitmap(); bm != nil {
+				abm = bm.String()
+			}
+			res.opt = fmt.Sprintf("1hit=(%d,%v) actual=%s", d1, is1, abm)
+		}
 		limit := -1
 		switch o.consume {
 		case 0:
@@ -528,6 +538,45 @@ func dvReuse(c *explore.Ctx) {
 				}
 			})
 			return out + msg
+		}
+		// two readers used alternately, after the segment has been a merge input once (the merge walks
+		// the segment's own doc-value readers): every sequence of <= 4 (reader, document) visits
+		if _, _, _, err := merge([]segment.Segment{seg}, []*roaring.Bitmap{nil}, 1025); err != nil {
+			c.Violate(scope, int64(ci), sigOf("C13", "dv-merge", "error: "+err.Error()), err.Error(), fmt.Sprint(k))
+			continue
+		}
+		{
+			type rv struct {
+				r int
+				d uint64
+			}
+			choices := []rv{{0, 0}, {0, 1024}, {1, 0}, {1, 1024}, {0, 5}}
+			bad := false
+			for n := 2; n <= 4 && !bad; n++ {
+				gen.Pow(len(choices), n, func(v []int) bool {
+					c.Eval()
+					c.R.Distinct++
+					c.Nontrivial()
+					c.R.Transitions += int64(n)
+					var rs [2]segment.DocumentValueReader
+					rs[0], _ = seg.DocumentValueReader(fields)
+					rs[1], _ = seg.DocumentValueReader(fields)
+					for i, ci2 := range v {
+						ch := choices[ci2]
+						fresh, _ := seg.DocumentValueReader(fields)
+						got, want := visit(rs[ch.r], ch.d), visit(fresh, ch.d)
+						if got != want {
+							c.Violate(scope, int64(ci), "C13/dv-reuse/wrong", fmt.Sprintf("two readers, visit #%d of %v (reader %d, doc %d): delivered %q, a fresh reader %q", i, v, ch.r, ch.d, got, want), fmt.Sprintf("DV-REUSE n=%d pattern=%d, two readers after a merge of the segment", k.n, k.p))
+							bad = true
+							return false
+						}
+					}
+					return true
+				})
+			}
+			if bad {
+				continue
+			}
 		}
 		docs := []uint64{0, 5, 1024, uint64(k.n - 1)}
 		for _, o := range orders(docs, 5) {
